@@ -13,7 +13,7 @@ from harness.common import F, enc, fl
 
 ID = "C04"
 PROPS_FILE = "Props/C04.v"
-COQ_IMPORTS = ("From SA Require Import Model.HarnessMetrics.\nFrom SA Require Model.FloatMetrics.\n"
+COQ_IMPORTS = ("From SA Require Import Model.HarnessMetrics.\nFrom SA Require Model.FloatMetrics.\nFrom SA Require Model.NarrowInt.\n"
                "From Coq Require Import Floats.PrimFloat.")
 GEN_AVAILABLE = set()
 CHUNK = 14  # cases per generated .v file (literals with 2^53 denominators are slow to parse; files run in parallel)
@@ -180,6 +180,10 @@ def run_impl(case):
                     same = False
                 if not same:
                     row["promoting" if name in ("tp", "tn", "fp", "fn", "pop", "accuracy", "error_rate") else "elementwise"].append(name)
+            if np.dtype(ndt).kind == "u":
+                first = big.reshape(-1, 2, 2)[:1].astype(ndt)
+                row["obs"] = {"bits": int(np.dtype(ndt).itemsize * 8), "cells": [int(v) for v in first.reshape(-1)],
+                              "sums": [int(np.asarray(getattr(metrics, nm_)(first)).reshape(-1)[0]) for nm_ in ("p", "n", "top", "ton", "pop")]}
             narrow.append(row)
     out["narrow_matrix"] = narrow
     return out
@@ -242,6 +246,16 @@ def coq_term(case, res):
     if t is None or t == "false" or "ok" not in res:
         return t
     ft = _float_terms(case, res)
+    # Model/NarrowInt.v (the wrap of the two-cell sums for unsigned narrow dtypes, used by C04_narrow_int_refuted) against the
+    # sums the implementation returned for the derived uint8 / uint16 matrix
+    for row in res["ok"].get("narrow_matrix") or []:
+        o = row.get("obs")
+        if o:
+            c, sm, b = o["cells"], o["sums"], o["bits"]
+            m_ = f"(NarrowInt.Build_cm2z {cq.z(c[0])} {cq.z(c[1])} {cq.z(c[2])} {cq.z(c[3])})"
+            ft = list(ft) + [f"Z.eqb (NarrowInt.p_u {b} {m_}) {cq.z(sm[0])}", f"Z.eqb (NarrowInt.n_u {b} {m_}) {cq.z(sm[1])}",
+                             f"Z.eqb (NarrowInt.top_u {b} {m_}) {cq.z(sm[2])}", f"Z.eqb (NarrowInt.ton_u {b} {m_}) {cq.z(sm[3])}",
+                             f"Z.eqb (NarrowInt.pop_u {m_}) {cq.z(sm[4])}"]
     return f"({t} && " + " && ".join(ft) + ")" if ft else t
 
 
